@@ -2,6 +2,7 @@ package simkit
 
 import (
 	"fmt"
+	"regexp"
 	"runtime"
 	"sort"
 	"strconv"
@@ -26,6 +27,7 @@ type Task struct {
 	gid     int64
 	label   string
 	arrival int
+	prio    int
 	ch      chan struct{}
 }
 
@@ -45,6 +47,7 @@ type Sim struct {
 	enabled  atomic.Bool
 	inTx     map[int64]int
 	glabel   map[int64]string
+	children map[string]int
 	arrivals int
 
 	Steps    int
@@ -70,7 +73,7 @@ type Sim struct {
 
 // NewSim must be called inside the bubble by the goroutine that will be the root.
 func NewSim(d *Decider) *Sim {
-	s := &Sim{D: d, Tr: &Trace{}, wake: make(chan struct{}, 1), inTx: map[int64]int{}, glabel: map[int64]string{},
+	s := &Sim{D: d, Tr: &Trace{}, wake: make(chan struct{}, 1), inTx: map[int64]int{}, glabel: map[int64]string{}, children: map[string]int{},
 		rootG: Goid(), MaxSteps: 20000, Epoch: time.Now()}
 	return s
 }
@@ -157,6 +160,46 @@ func (s *Sim) passThrough() bool {
 	return false
 }
 
+var createdByRe = regexp.MustCompile(`created by (\S+) in goroutine (\d+)`)
+
+// deriveLabel names a goroutine that nuts-node (not the workload) started: the label of the
+// goroutine that created it, the creating function, and an ordinal. Labels are what scheduling
+// priorities are keyed by, so that the same logical activity gets the same decisions in a
+// replay even if unrelated activities arrive in another order.
+func (s *Sim) deriveLabel(g int64, site string) string {
+	buf := make([]byte, 1<<15)
+	n := runtime.Stack(buf, false)
+	m := createdByRe.FindSubmatch(buf[:n])
+	if m == nil {
+		return "?"
+	}
+	fn := string(m[1])
+	if i := strings.LastIndex(fn, "/"); i >= 0 {
+		fn = fn[i+1:]
+	}
+	pg, _ := strconv.ParseInt(string(m[2]), 10, 64)
+	s.mu.Lock()
+	defer s.mu.Unlock()
+	parent, ok := s.glabel[pg]
+	if !ok {
+		if pg == s.rootG {
+			parent = "root"
+		} else {
+			parent = "?"
+		}
+	}
+	// the first seam the goroutine touches is part of its name: goroutines started from a loop
+	// over a Go map (one per notifier, per peer, ...) are told apart by what they work on
+	key := parent + ">" + fn + "[" + site + "]"
+	s.children[key]++
+	lbl := fmt.Sprintf("%s#%d", key, s.children[key])
+	if len(lbl) > 160 {
+		lbl = "..." + lbl[len(lbl)-157:]
+	}
+	s.glabel[g] = lbl
+	return lbl
+}
+
 // Yield parks the calling goroutine at a seam until the scheduler releases it. It returns at
 // once for the root, while disabled, inside a store transaction, and for pass-through stacks.
 func (s *Sim) Yield(site string) {
@@ -172,8 +215,11 @@ func (s *Sim) Yield(site string) {
 		s.mu.Unlock()
 		return
 	}
-	lbl := s.glabel[g]
+	lbl, known := s.glabel[g]
 	s.mu.Unlock()
+	if !known {
+		lbl = s.deriveLabel(g, site)
+	}
 	if s.passThrough() {
 		return
 	}
@@ -183,6 +229,8 @@ func (s *Sim) Yield(site string) {
 		}
 	}
 	t := &Task{gid: g, label: lbl + "@" + site, ch: make(chan struct{})}
+	// the scheduling priority of this park: keyed by the task label, drawn when it parks
+	t.prio = s.D.Decide("prio "+t.label, 1<<16)
 	s.mu.Lock()
 	s.arrivals++
 	t.arrival = s.arrivals
@@ -238,23 +286,26 @@ func (s *Sim) step() bool {
 		close(t.ch)
 		return true
 	}
+	// highest priority first; ties by label, then by arrival
 	sort.SliceStable(s.parked, func(i, j int) bool {
-		if s.parked[i].label != s.parked[j].label {
-			return s.parked[i].label < s.parked[j].label
+		a, b := s.parked[i], s.parked[j]
+		if a.prio != b.prio {
+			return a.prio > b.prio
 		}
-		return s.parked[i].arrival < s.parked[j].arrival
+		if a.label != b.label {
+			return a.label < b.label
+		}
+		return a.arrival < b.arrival
 	})
-	s.mu.Unlock()
 	i := 0
-	if n > 1 {
-		i = s.D.Decide("sched", n)
-		if i != 0 {
-			s.NonFIFO++
+	t := s.parked[0]
+	for _, o := range s.parked {
+		if o.arrival < t.arrival {
+			s.NonFIFO++ // the released task is not the one that has waited longest
+			break
 		}
 	}
-	s.mu.Lock()
-	t := s.parked[i]
-	s.parked = append(s.parked[:i], s.parked[i+1:]...)
+	s.parked = s.parked[1:]
 	s.Steps++
 	s.mu.Unlock()
 	s.Tr.Add("%d %s %d/%d", s.Steps, t.label, i, n)
